@@ -257,6 +257,18 @@ impl<const E: usize, const N: usize> UserLabels<E, N> {
         })
     }
 
+    /// Verification hook: the label values of `endpoint_id`.
+    #[cfg(feature = "verif")]
+    pub fn verif_values(&self, endpoint_id: EndptId) -> std::vec::Vec<std::string::String> {
+        self.with_entries(endpoint_id, |entries| {
+            Ok(entries
+                .iter()
+                .map(|e| std::string::String::from(e.value.as_str()))
+                .collect())
+        })
+        .unwrap_or_default()
+    }
+
     /// Replace this endpoint's entire `LabelList` with the entries
     /// produced by the provided iterator. The new list is validated
     /// up front (each entry against the spec length limits) before
